@@ -744,6 +744,20 @@ def o_c08(rec):
                            math.isnan(float(res.maxcv))):
         out.append(V("nan_success", f"success with fun={res.fun} "
                                     f"maxcv={res.maxcv}"))
+    if res["success"]:
+        # the same with the TRUE values at res.x (as the user functions
+        # returned them there): an undefined constraint or objective value
+        # must not hide behind a finite reported one
+        try:
+            tv, _sl = rec.true_maxcv(np.asarray(res.x, dtype=float))
+        except Exception:  # noqa: BLE001
+            tv = None
+        if tv is not None and math.isnan(tv):
+            out.append(V("nan_success_true",
+                         f"success=True (maxcv={res.maxcv}) although the "
+                         f"constraint violation at res.x is undefined (NaN) "
+                         f"according to the values the user functions "
+                         f"returned there", mechanism="true_maxcv_nan"))
     # values handed to the models
     for ev in rec.run.evals:
         if ev["ret"] is None:
